@@ -40,7 +40,7 @@ func run(opline string) {
 }
 
 var hangs int
-var opTimeout = 60 * time.Second
+var opTimeout = 30 * time.Second
 
 // replayFile re-runs every op line of a corpus/replay file (text before " => " if present).
 func replayFile(path string) {
